@@ -5,7 +5,8 @@ import strict_tlv as S
 
 PROP = 'C07'
 TITLE = 'Packet decoders accept exactly the well-formed packets'
-LEAN_TARGETS = ['NdnProofs.Props.C07', 'NdnGen.C07', 'NdnProofs.Props.TlvVarGen', 'NdnGen.TlvVar']
+LEAN_TARGETS = ['NdnProofs.Props.C07', 'NdnGen.C07', 'NdnProofs.Props.TlvVarGen', 'NdnGen.TlvVar',
+                'NdnProofs.Props.TlvModelParseGen', 'NdnGen.TlvModelFields']
 THEOREMS = [
     'Ndn.C07.parse_total', 'Ndn.C07.decodePacket_error_classes', 'Ndn.C07.shipped_decoders_error_classes',
     'Ndn.C07.decodeName_error_classes',
@@ -20,6 +21,10 @@ THEOREMS = [
     # tlv_var.py readers TRANSLATED from their source text on every run (harness/py2lean.py -> lean/NdnGen/TlvVar.lean)
     # = the model functions the decoder model reads Type / Length numbers with, error classes included
     'Ndn.TlvVarGen.all_translated', 'Ndn.TlvVarGen.parse_tl_num_eq', 'Ndn.TlvVarGen.parse_and_check_tl_eq',
+    # parse_from of the leaf field classes of tlv_model.py, translated the same way (NdnGen/TlvModelFields.lean)
+    # = what the decoder model does with a leaf element (Codec.leafCheck + parseValue), error classes included
+    'Ndn.TlvModelGen.parse_translated', 'Ndn.TlvModelGen.uint_parse_from_eq', 'Ndn.TlvModelGen.bool_parse_from_eq',
+    'Ndn.TlvModelGen.bytes_parse_from_eq', 'Ndn.TlvModelGen.str_parse_from_eq',
 ]
 PARTIAL = {
     'Ndn.C07.strict_implies_accept_partial':
@@ -37,7 +42,10 @@ TRUSTED = [
     'C07: the four packet schemas are regenerated from the live classes on every run; Python slicing / struct semantics are CPython',
     'C07 (tlv_var.py): parse_tl_num and parse_and_check_tl are translated from the source text by harness/py2lean.py and '
     'proved equal to the model functions for all inputs (IndexError / struct.error classes included); trusted there: the '
-    'translator and lean/NdnModel/PySem.lean (the reading of CPython ints, struct.unpack, indexing, slicing)',
+    'translator and lean/NdnModel/PySem.lean (the reading of CPython ints, struct.unpack, indexing, slicing); the same for '
+    'UintField / BoolField / BytesField.parse_from of tlv_model.py (methods translated as functions of their parameters; '
+    'bytes.decode("utf-8") read as: succeeds exactly on Ndn.utf8Valid input); the scan loop of TlvModel.parse and the other '
+    'field classes stay tied by differential execution',
     'C07: "time proportional to the input" is shown as: the scan loop of a level never exhausts fuel = len+1 (one unit per element); wall-clock is not measured',
 ]
 RULE = ('valid Interest / Data / LpPacket / certificate wires built by the library (all optional-field combinations, signed '
